@@ -57,7 +57,13 @@ ARGS = {
     "alloc_iter_exact": "[1u32, 2]", "alloc_iter_mut": "[1u32, 2]", "alloc_iter_mut_rev": "[1u32, 2]",
     "alloc_uninit": "<u32>", "alloc_uninit_slice": "<u32>2", "alloc_uninit_slice_for": "&[1u32, 2]",
     "alloc_try_with": "|| Ok::<u32, ()>(1)", "alloc_try_with_mut": "|| Ok::<u32, ()>(1)", "stats": "", "allocator": "",
+    "get_with_size": "512", "get_with_capacity": "core::alloc::Layout::new::<u64>()",
 }
+
+# result type annotations for the methods whose result type has a free settings parameter
+ANN = {("Bump", "borrow_with_settings"): "&Bump<A>", ("Bump", "borrow_mut_with_settings"): "&mut Bump<A>", ("Bump", "with_settings"): "Bump<A>",
+       ("BumpScope", "borrow_with_settings"): "&BumpScope<A>", ("BumpScope", "borrow_mut_with_settings"): "&mut BumpScope<A>",
+       ("BumpScope", "with_settings"): "BumpScope<A>"}
 
 ALLOC_NAMES = {(1, 1): "Global", (0, 0): "NoSend", (1, 0): "SendNoSync"}
 DEFAULT_S = "BumpSettings"
@@ -71,6 +77,7 @@ class Prog:
         self.info = {}           # var -> dict(kind=…, isref=bool, ret=…)
         self.indent = 1
         self.open = []           # stack of (result var placeholder index in self.rust, s, g)
+        self.methods = set()     # table methods the program calls
 
     def fresh(self):
         v = self.n; self.n += 1; return v
@@ -90,6 +97,8 @@ class Prog:
 
     def call(self, h, owner, name, ann=None):
         s = self.sig(owner, name)
+        self.methods.add((owner, name))
+        ann = ann or ANN.get((owner, name[4:] if name.startswith("try_") else name))
         op = sigs2lean.effect_class(owner, name)
         x = self.fresh()
         self.stmts.append(("call", x, h, op, owner, name))
@@ -106,6 +115,10 @@ class Prog:
             if trait:
                 r = ("&mut " if s.recv == "refMut" else "&") + recv
                 expr = f"{owner}::{name}{turbofish}({r}{', ' + a if a else ''})"
+            elif owner == "Bump" and s.recv == "ref" and self.info.get(h, {}).get("isref"):
+                # method syntax on a `&mut Bump` would pick the scope TRAIT's method of the same name (`&&mut Bump` is tried
+                # before the auto-deref to `Bump`) when the trait is in scope; the calculus statement means the inherent one
+                expr = f"Bump::{name}{turbofish}(&*{recv}{', ' + a if a else ''})"
             else:
                 expr = f"{recv}.{name}{turbofish}({a})"
             if name.startswith("try_"): expr += ".unwrap()"
@@ -133,6 +146,7 @@ class Prog:
         return v
 
     def enter(self, h, owner, name):
+        self.methods.add((owner, name))
         s, g = self.fresh(), self.fresh()
         op = sigs2lean.effect_class(owner, name)
         self.stmts.append(("enter", s, g, h, op, owner, name))
@@ -161,7 +175,16 @@ class Prog:
         o = self.fresh(); self.stmts.append(("slot", o)); self.info[o] = {"kind": "val", "isref": False}
         self.emit(f"let mut v{o} = None;"); return o
     def store(self, o, x):
+        self.info[o]["ret"] = self.info[x].get("ret")
         self.stmts.append(("store", o, x)); self.emit(f"v{o} = Some(v{x});")
+    def glue(self, v):
+        """does the Rust type of the variable have drop glue (an implicit drop at the end of its block is a use)?"""
+        i = self.info.get(v, {})
+        k = i.get("kind")
+        if k in ("guard", "claim", "poolGuard", "coll", "pool"): return True
+        if k == "bump": return not i.get("isref")
+        if k == "val": return i.get("ret") == "box"
+        return False
     def send(self, x):
         self.stmts.append(("send", x))
         self.emit(f"std::thread::scope(|sc| {{ sc.spawn(move || {{ let y = v{x}; touch(&y); drop(y); }}); }});")
@@ -195,6 +218,8 @@ class Case:
         self.route, self.producer, self.context, self.emit = route, producer, context, emit
         self.tag = None    # known-finding tag (message prefix)
         self.ends = getattr(prog, "ends", True) if prog is not None else True
+        self.methods = set(prog.methods) if prog is not None else set()
+        self.focus = None  # derived corpus: the table method whose result the program misuses
 
 def producers_of(table, owner):
     """alloc-class methods of an owner, as (name, recv)"""
@@ -579,17 +604,228 @@ def gen_conversions(cases, thorough):
                              context="settings", emit="obj")
                     cases.append(c)
 
+
+# ------------------------------------------------------------------------------------------------
+# the DERIVED corpus: canonical misuse programs for every method of the signature table that hands out something
+# (a value, a guard, a scope, a reference, a claim / pool guard, a collection's `into_*`), in every setup that yields a
+# receiver for it.  No expectation is attached by the generator: a program must not compile iff the calculus' DYNAMIC
+# semantics faults on it (use after the epoch ended / dead arena / cross-thread) — that oracle does not depend on any
+# signature — and the type checker's verdict is compared with rustc's as for the rest of the corpus.
+
+def El(var, kind, acc): return dict(var=var, kind=kind, acc=acc)
+
+def su_bump(P):
+    b = P.new_bump(); return dict(chain=[El(b, "bump", "own")])
+def su_bump_mutref(P):
+    b = P.new_bump(); bm = P.call(b, "Bump", "borrow_mut_with_settings"); return dict(chain=[El(b, "bump", "own"), El(bm, "bump", "mut")])
+def su_bump_ref(P):
+    b = P.new_bump(); br = P.call(b, "Bump", "borrow_with_settings"); return dict(chain=[El(b, "bump", "own"), El(br, "bump", "shr")])
+def su_scope(P):
+    b = P.new_bump(); g = P.call(b, "Bump", "scope_guard"); s = P.call(g, "BumpScopeGuard", "scope")
+    return dict(chain=[El(b, "bump", "own"), El(g, "guard", "own"), El(s, "scope", "mut")])
+def su_scope_shared(P):
+    b = P.new_bump(); s = P.call(b, "Bump", "as_scope"); return dict(chain=[El(b, "bump", "own"), El(s, "scope", "shr")])
+def su_scope_asmut(P):
+    b = P.new_bump(); s = P.call(b, "Bump", "as_mut_scope"); return dict(chain=[El(b, "bump", "own"), El(s, "scope", "mut")])
+def su_scope_owned(P):
+    c = su_scope(P); v = P.call(c["chain"][-1]["var"], "BumpScope", "by_value"); c["chain"].append(El(v, "scope", "own")); return c
+def su_scope_closure(P, outer_slot=False):
+    b = P.new_bump()
+    o_ = P.slot() if outer_slot else None      # declared after the Bump: it is dropped before it
+    s = P.enter(b, "Bump", "scoped"); return dict(chain=[El(b, "bump", "own"), El(s, "scope", "mut")], closure=True, slot=o_)
+def su_guard(P):
+    b = P.new_bump(); g = P.call(b, "Bump", "scope_guard"); return dict(chain=[El(b, "bump", "own"), El(g, "guard", "own")])
+def su_claim(P):
+    b = P.new_bump(); cg = P.call(b, "Bump", "claim"); return dict(chain=[El(b, "bump", "own"), El(cg, "claim", "own")])
+def su_claim_scope(P):
+    c = su_scope(P); cg = P.call(c["chain"][-1]["var"], "BumpScope", "claim"); c["chain"].append(El(cg, "claim", "own")); return c
+def su_pool(P):
+    p = P.new_pool(); return dict(chain=[El(p, "pool", "own")])
+def su_poolguard(P):
+    p = P.new_pool(); pg = P.call(p, "BumpPool", "get"); return dict(chain=[El(p, "pool", "own"), El(pg, "poolGuard", "own")])
+
+SETUPS = [("bump", su_bump), ("&mut Bump", su_bump_mutref), ("&Bump", su_bump_ref), ("guard.scope()", su_scope), ("as_scope", su_scope_shared),
+          ("as_mut_scope", su_scope_asmut), ("by_value", su_scope_owned), ("scoped-closure", su_scope_closure), ("guard", su_guard),
+          ("claim", su_claim), ("scope.claim", su_claim_scope), ("pool", su_pool), ("pool.get", su_poolguard)]
+# setups in which the whole alloc family is instantiated (the other setups get the plain `alloc` / `alloc_str` only)
+FULL_ALLOC_SETUPS = {"bump", "guard.scope()", "by_value", "scoped-closure"}
+
+OWNER_KINDS = {"Bump": ["bump"], "BumpScope": ["scope", "claim", "poolGuard"], "BumpScopeGuard": ["guard"], "BumpClaimGuard": ["claim"],
+               "BumpPool": ["pool"], "BumpPoolGuard": ["poolGuard"], "BumpAllocator": ["bump", "scope"], "BumpAllocatorScope": ["scope"],
+               "BumpAllocatorTypedScope": ["scope", "bumpref"], "MutBumpAllocatorTypedScope": ["scope", "bumpref"]}
+TRAITS = ("BumpAllocator", "BumpAllocatorScope", "BumpAllocatorTypedScope", "MutBumpAllocatorTypedScope")
+DERIVING_OPS = ("alloc", "mkGuard", "guardScope", "viewScope", "viewSame", "claim", "poolGet")
+
+def receives(sig, owner, o):
+    kinds = OWNER_KINDS.get(owner, [])
+    k = o["kind"]
+    if k == "bump" and "bumpref" in kinds and o["acc"] != "own": pass
+    elif k not in kinds: return False
+    if owner in TRAITS and k in ("claim", "poolGuard"): return False        # UFCS does not auto-deref
+    if owner == "BumpAllocator" and k == "bump" and o["acc"] != "own": return False
+    if sig.recv == "refMut" and o["acc"] == "shr": return False
+    if sig.recv == "value": return False
+    return True
+
+def owner_of(a): return "Bump" if a["kind"] == "bump" else "BumpScope"
+
+def alloc_via(P, r):
+    """a value allocated through the handle `r` (None if `r` does not allocate)"""
+    k = P.info[r]["kind"]
+    if k in ("scope", "claim", "poolGuard"): return P.call(r, "BumpScope", "alloc_str")
+    if k == "bump": return P.call(r, "Bump", "alloc_str")
+    if k == "guard": return P.call(P.call(r, "BumpScopeGuard", "scope"), "BumpScope", "alloc_str")
+    return None
+
+def use_result(P, r):
+    if P.info[r]["kind"] == "val": P.use(r)
+    else: P.use(alloc_via(P, r))
+
+def simple_events(a):
+    v, k, acc = a["var"], a["kind"], a["acc"]
+    if k == "bump" and acc != "shr":
+        ev_ = [("reset", lambda P: P.call(v, "Bump", "reset")), ("reset_to_start", lambda P: P.call(v, "Bump", "reset_to_start"))]
+        if acc == "own": ev_.append(("drop", lambda P: P.drop(v)))
+        return ev_
+    if k == "guard":
+        return [("drop", lambda P: P.drop(v)), ("reset", lambda P: P.call(v, "BumpScopeGuard", "reset")), ("scope()", lambda P: P.call(v, "BumpScopeGuard", "scope"))]
+    if k == "pool":
+        return [("reset", lambda P: P.call(v, "BumpPool", "reset")), ("reset_to_start", lambda P: P.call(v, "BumpPool", "reset_to_start")), ("drop", lambda P: P.drop(v))]
+    if k in ("claim", "poolGuard") and acc == "own":
+        return [("drop", lambda P: P.drop(v))]
+    return []
+
+def wrap_events(a):
+    """events that open a scope on `a`, run `inner` inside it and close it; they return what `inner` carried out"""
+    v, k, acc = a["var"], a["kind"], a["acc"]
+    if acc == "shr" or k not in ("bump", "scope", "claim", "poolGuard"): return []
+    def guard_wrap(P, inner):
+        g2 = P.call(v, owner_of(a), "scope_guard"); y = inner(P); P.drop(g2); return y
+    def scoped_wrap(P, inner):
+        P.enter(v, owner_of(a), "scoped"); y = inner(P); P.exit(y); return y
+    return [("scope_guard..drop", guard_wrap), ("scoped(..)", scoped_wrap)]
+
+def derivations(table):
+    """(focus (owner, name), make(P, o) -> result var) for every table method that hands something out, plus the collections"""
+    res = []
+    for (owner, name), sig in sorted(table.items()):
+        if sigs2lean.effect_class(owner, name) not in DERIVING_OPS: continue
+        if sig.ret == "unit" or owner in sigs2lean.OWNER_CLASS and sigs2lean.OWNER_CLASS[owner] == "coll": continue
+        base = name[4:] if name.startswith("try_") else name
+        if sigs2lean.effect_class(owner, name) == "alloc" and base not in ARGS: continue
+        res.append(((owner, name), sig, (lambda P, o, owner=owner, name=name: P.call(o["var"], owner, name))))
+    for ty, mode in (("BumpVec", "shr"), ("BumpString", "shr"), ("MutBumpVec", "mut"), ("MutBumpVecRev", "mut"), ("MutBumpString", "mut"),
+                     ("BumpVec", "mut"), ("BumpString", "mut")):
+        for (o_, n), sig in sorted(table.items()):
+            if o_ == ty:
+                res.append(((ty, n), ("coll", mode), (lambda P, o, ty=ty, mode=mode, n=n: P.call(P.coll(o["var"], mode, ty), ty, n))))
+    return res
+
+def gen_derived(table, cases):
+    for setup_name, su in SETUPS:
+        probe = su(Prog(table)); o0 = probe["chain"][-1]; closure = probe.get("closure", False)
+        for focus, sig, make in derivations(table):
+            owner, name = focus
+            if isinstance(sig, tuple):      # a collection over the handle
+                if o0["kind"] not in ("bump", "scope") or (sig[1] == "mut" and o0["acc"] == "shr"): continue
+                is_alloc = True
+            else:
+                if not receives(sig, owner, o0): continue
+                is_alloc = sigs2lean.effect_class(owner, name) == "alloc"
+            base = name[4:] if name.startswith("try_") else name
+            if is_alloc and not isinstance(sig, tuple) and setup_name not in FULL_ALLOC_SETUPS and name not in ("alloc", "alloc_str", "alloc_iter_mut", "stats", "allocator"):
+                continue
+            tagged = setup_name == "&mut Bump" and owner in ("BumpAllocatorTypedScope", "MutBumpAllocatorTypedScope")
+            def add(form, build, through_o=False):
+                P = Prog(table)
+                try:
+                    build(P)
+                except KeyError:
+                    return
+                lab = "(&mut)" if (isinstance(sig, tuple) and sig[1] == "mut" and not owner.startswith("Mut")) else ""
+                c = Case(f"derived/{setup_name}/{owner}{lab}::{name}/{form}", None, P, route=form.split("@")[0], producer=f"{owner}::{name}",
+                         context="derived:" + setup_name)
+                c.focus = focus
+                if tagged and through_o: c.tag = REFMUT_TAG
+                cases.append(c)
+            def prefix(P):
+                st = su(P); r = make(P, st["chain"][-1]); return st, r
+            if closure:
+                # the value (or a value allocated through the handle) leaves the closure: returned / stored outside
+                def ret(P):
+                    st, r = prefix(P); y = r if P.info[r]["kind"] == "val" else alloc_via(P, r)
+                    P.exit(y); P.use(y)
+                def sto(P):
+                    st = su(P, outer_slot=True); r = make(P, st["chain"][-1]); y = r if P.info[r]["kind"] == "val" else alloc_via(P, r)
+                    P.store(st["slot"], y); P.exit(None); P.use(st["slot"])
+                def inside(P):
+                    st, r = prefix(P); use_result(P, r); P.exit(None)
+                add("return-from-closure", ret); add("store-outside-closure", sto); add("used-inside-closure", inside)
+                continue
+            n_chain = len(probe["chain"])
+            for ai in range(n_chain):
+                a0 = probe["chain"][ai]
+                for en, _ in simple_events(a0):
+                    idx = [n for n, _ in simple_events(a0)].index(en)
+                    tag_here = ai == n_chain - 1
+                    # hold the result across the event
+                    def f1(P, ai=ai, idx=idx):
+                        st, r = prefix(P); simple_events(st["chain"][ai])[idx][1](P); use_result(P, r)
+                    # last use before the event
+                    def f1c(P, ai=ai, idx=idx):
+                        st, r = prefix(P); use_result(P, r); simple_events(st["chain"][ai])[idx][1](P)
+                    add(f"hold-across@{ai}.{a0['kind']}.{en}", f1, tag_here); add(f"use-before@{ai}.{a0['kind']}.{en}", f1c, tag_here)
+                    if is_alloc:
+                        def f7(P, ai=ai, idx=idx):
+                            st, r = prefix(P); o_ = P.slot(); P.store(o_, r); simple_events(st["chain"][ai])[idx][1](P); P.use(o_)
+                        def f6(P, ai=ai, idx=idx):
+                            st, r = prefix(P); simple_events(st["chain"][ai])[idx][1](P); P.send(r)
+                        if P_is_box(table, focus, sig):
+                            add(f"store-outer@{ai}.{a0['kind']}.{en}", f7, tag_here); add(f"send-after@{ai}.{a0['kind']}.{en}", f6, tag_here)
+                    else:
+                        # a value allocated through the derived handle BEFORE the event is read after it
+                        def f2(P, ai=ai, idx=idx):
+                            st, r = prefix(P); y = alloc_via(P, r); simple_events(st["chain"][ai])[idx][1](P); P.use(y)
+                        add(f"alloc-through,then@{ai}.{a0['kind']}.{en}", f2, tag_here)
+                for wn, _ in wrap_events(a0):
+                    widx = [n for n, _ in wrap_events(a0)].index(wn)
+                    tag_here = ai == n_chain - 1
+                    if is_alloc:
+                        def f4(P, ai=ai, widx=widx):
+                            st, r = prefix(P); wrap_events(st["chain"][ai])[widx][1](P, lambda P: None); P.use(r)
+                        add(f"hold-across@{ai}.{a0['kind']}.{wn}", f4, tag_here)
+                    else:
+                        # the ORIGINAL opens a scope while the derived handle is alive; what is allocated through the derived
+                        # handle inside is read after the scope is closed
+                        def f3(P, ai=ai, widx=widx):
+                            st, r = prefix(P); y = wrap_events(st["chain"][ai])[widx][1](P, lambda P: alloc_via(P, r)); P.use(y)
+                        def f3b(P, ai=ai, widx=widx):
+                            st, r = prefix(P); wrap_events(st["chain"][ai])[widx][1](P, lambda P: None); use_result(P, r)
+                        add(f"alloc-through-inside@{ai}.{a0['kind']}.{wn}", f3, tag_here); add(f"hold-across@{ai}.{a0['kind']}.{wn}", f3b, tag_here)
+            # the result itself goes to another thread
+            def sendr(P):
+                st, r = prefix(P); P.send(r)
+            def sharer(P):
+                st, r = prefix(P); P.share(r)
+            movable = (is_alloc and P_is_box(table, focus, sig)) or (not is_alloc and sig.ret in ("guard", "claimGuard", "poolGuard", "scopeVal"))
+            if movable: add("send", sendr)
+            if not is_alloc or P_is_box(table, focus, sig): add("share", sharer)
+
+def P_is_box(table, focus, sig):
+    if isinstance(sig, tuple): return table[focus].ret == "box"
+    return sig.ret == "box"
+
 def build_corpus(table, thorough):
     cases = []
     gen_linear(table, cases); gen_closures(table, cases); gen_collections(table, cases); gen_handles(table, cases)
-    gen_threads(table, cases); gen_known(table, cases); gen_conversions(cases, thorough)
+    gen_threads(table, cases); gen_known(table, cases); gen_conversions(cases, thorough); gen_derived(table, cases)
     ids = set()
     for c in cases:
         if c.id in ids: raise RuntimeError("duplicate case id " + c.id)
         ids.add(c.id)
     return cases
 
-def select(cases, quick, seed, budget=520):
+def select(cases, quick, seed, budget=900):
     """quick tier: all handle / known-finding cases, a capped sample of thread and settings cases, and a stratified
     sample (round robin over (context, route) strata, escape + control kept together) of the producer x route product"""
     if not quick: return cases
@@ -615,7 +851,17 @@ def select(cases, quick, seed, budget=520):
     for (route, _), g in sorted(fam.items()): by_route[route].append(g)
     for route in sorted(by_route):
         for g in rng.sample(by_route[route], min(4, len(by_route[route]))): fixed += g
-    rest = [c for c in cases if c.context not in ("handles", "&mut Bump(trait)", "threads", "settings")]
+    # the derived corpus: every handle-producing method in every setup and form once (they are few), a sample of the alloc family
+    derived = [c for c in cases if c.context.startswith("derived:")]
+    handle_foc = [c for c in derived if c.focus and sigs2lean.effect_class(*c.focus) != "alloc" and c.focus[0] not in ("BumpVec", "BumpString", "MutBumpVec", "MutBumpVecRev", "MutBumpString")]
+    hs = collections.defaultdict(list)
+    for c in handle_foc: hs[(c.focus, c.route)].append(c)
+    for k in sorted(hs): fixed.append(rng.choice(hs[k]))
+    others = [c for c in derived if c not in set(handle_foc)]
+    os_ = collections.defaultdict(list)
+    for c in others: os_[(c.context, c.route)].append(c)
+    for k in sorted(os_): fixed += rng.sample(os_[k], min(2, len(os_[k])))
+    rest = [c for c in cases if c.context not in ("handles", "&mut Bump(trait)", "threads", "settings") and not c.context.startswith("derived:")]
     groups = collections.defaultdict(list)
     for c in rest: groups[c.id.rsplit("/", 1)[0]].append(c)
     by_stratum = collections.defaultdict(list)
@@ -789,8 +1035,37 @@ def run_checker(ctx, cases):
     if not good: return False
     for i, c in enumerate(cases):
         a = ans[f"c{i}"]
-        c.model = a[0]; c.model_detail = " ".join(a[1:])
+        c.model, c.run, c.implicit = a[0], "", []
+        if not c.prog:
+            c.model_detail = " ".join(a[1:]); continue
+        kv = dict(w.split("=", 1) for w in a[1:] if "=" in w)
+        c.run = kv.get("run", "")
+        if c.model == "accept":
+            inv = [int(v) for v in kv.get("inv", "").split(",") if v]
+            # Rust drops what the program does not drop: an invalidated variable whose type has drop glue is a use
+            c.implicit = [v for v in inv if c.prog.glue(v)]
+            if c.implicit:
+                c.model, c.model_detail = "reject", f"dead implicit-drop-of-v{c.implicit[0]}"
+            else:
+                c.model_detail = c.run
+        else:
+            c.model_detail = " ".join(w for w in a[1:] if "=" not in w)
     return True
+
+MEMORY_FAULTS = ("fault:uaf", "fault:deadArena", "fault:crossThread")
+
+def fault_trace(c):
+    """the calculus statements of the program with the faulting one marked"""
+    m = re.match(r"fault:(\w+)@(\d+)", c.run or "")
+    if not m: return []
+    k = int(m.group(2))
+    out = []
+    for i, st in enumerate(c.prog.stmts):
+        txt = " ".join("-" if a is None else str(a) for a in st)
+        out.append(f"{i:2d}  {txt}" + (f"      <== {m.group(1)}: " + {"uaf": "the value is used after its memory epoch ended",
+                   "deadArena": "the handle is used after its arena was dropped",
+                   "crossThread": "crosses a thread boundary although its type / base allocator is not thread-safe"}.get(m.group(1), "") if i == k else ""))
+    return out
 
 # ------------------------------------------------------------------------------------------------
 
@@ -821,14 +1096,25 @@ def load_table(ctx=None):
                              "and the calculus' checker uses that table")
         return table_from_generated()
 
-def run_life(ctx, budget=None):
-    """generate, compile, check, compare.  Returns True if the engine ran."""
+def run_life(ctx, budget=None, focus=None, label="life"):
+    """generate, compile, check, compare.  Returns True if the engine ran.
+    `focus`: a set of (owner, method) — run the FULL derived corpus restricted to programs about these methods (the search after
+    a table entry changed) instead of the tier's selection"""
     try:
         table = load_table(ctx)
     except Exception as e:
         ctx.add_ob("run:life-corpus", "build", False, f"no signature table: {e}"); return False
     thorough = not ctx.quick()
-    cases = select(build_corpus(table, thorough), ctx.quick(), ctx.seed, budget or 520)
+    corpus = build_corpus(table, thorough)
+    if focus is not None:
+        primary = [c for c in corpus if c.focus in focus]
+        rng = random.Random(ctx.seed)
+        secondary = [c for c in corpus if c.focus not in focus and (c.methods & focus)]
+        rng.shuffle(secondary)
+        cases = primary[:3000] + secondary[:400]
+        if not cases: return True
+    else:
+        cases = select(corpus, ctx.quick(), ctx.seed, budget or 900)
     d, libs = build_skeleton(ctx)
     if not d: return False
     if not run_checker(ctx, cases): return False
@@ -843,10 +1129,14 @@ def run_life(ctx, budget=None):
         if c.rustc == "reject": ctx.distinct.add(c.id)
         rec = {"engine": "life", "case": c.id, "expected": c.expected, "rustc": c.rustc, "rustc_codes": c.codes, "model": c.model + " " + c.model_detail,
                "calculus_program": c.prog.line("p") if c.prog else None, "program": c.text, "first_rustc_error": c.first_error}
-        # direct oracle: an escape / weakening conversion accepted by the compiler
-        if c.expected == "reject" and c.rustc == "accept":
-            msg = (c.tag + " " if c.tag else "ESCAPE-COMPILES ") + f"{c.id}: a program that must not compile is accepted by rustc (route: {c.route})"
-            rec.update({"message": msg, "history": c.prog.rust if c.prog else [], "replay": c.text})
+        # direct oracle: a program that must not compile is accepted by the compiler.  "Must not compile": an escape by construction,
+        # a weakening conversion, or ANY program on which the calculus' dynamic semantics (which looks at no signature) faults
+        dyn = c.prog is not None and (c.run or "").startswith(MEMORY_FAULTS)
+        if dyn: stats["programs-that-fault-dynamically"] += 1
+        if (c.expected == "reject" or dyn) and c.rustc == "accept":
+            why = f"route: {c.route}" + (f"; the calculus' run: {c.run}" if dyn else "")
+            msg = (c.tag + " " if c.tag else "ESCAPE-COMPILES ") + f"{c.id}: a program that must not compile is accepted by rustc ({why})"
+            rec.update({"message": msg, "history": c.prog.rust if c.prog else [], "replay": c.text, "dynamic_trace": fault_trace(c) if dyn else []})
             k = known_finding(known, ctx.prop, msg)
             if k:
                 if not any(f.get("known") == k for f in ctx.oracle_failures):
@@ -855,7 +1145,7 @@ def run_life(ctx, budget=None):
             elif len([f for f in ctx.oracle_failures if not f.get("known")]) < 20:
                 ctx.oracle_failures.append(rec)
             # the checker follows the table as it is, so it accepts too; then its run must exhibit the fault
-            if c.model == "accept" and c.prog and c.ends and "fault" not in c.model_detail:
+            if c.model == "accept" and c.prog and c.ends and c.expected == "reject" and "fault" not in (c.run or ""):
                 rec2 = dict(rec); rec2["what"] = "rustc and the checker accept an escape, but the calculus run shows no fault (model too weak)"
                 ctx.disagreements.append(rec2)
             continue
@@ -877,9 +1167,9 @@ def run_life(ctx, budget=None):
                 rec["what"] = f"accepted program faults in the calculus' dynamic semantics: {c.model_detail}"
                 ctx.disagreements.append(rec); continue
             stats["accept-and-runs-ok"] += 1
-    ctx.corr["life"] = {"programs": len(cases), "rustc_wall_s": round(wall, 1), "rustc_invocations": ctx.extra.get("rustc_invocations"), **dict(stats), "contexts": dict(by_ctx), "routes": dict(by_route),
+    ctx.corr[label] = {"programs": len(cases), "rustc_wall_s": round(wall, 1), "rustc_invocations": ctx.extra.get("rustc_invocations"), **dict(stats), "contexts": dict(by_ctx), "routes": dict(by_route),
                         "rustc_error_codes": dict(codes), "distinct_producers": len(producers)}
-    ctx.add_ob("correspondence:life(calculus checker vs rustc)", "correspondence", not [x for x in ctx.disagreements if x.get("engine") == "life"],
+    ctx.add_ob(f"correspondence:{label}(calculus checker vs rustc)", "correspondence", not [x for x in ctx.disagreements if x.get("engine") == "life"],
                json.dumps([{k: v for k, v in x.items() if k != "program"} for x in ctx.disagreements[:3]], indent=1)[:3000])
     for c in cases:
         if len(ctx.samples) >= 6: break
